@@ -166,7 +166,8 @@ func vp_C11_resolve() {
 			bWins := tsB > tsA || (tsB == tsA && fb.EventID() > fa.EventID())
 			// KF-C10-1: in v2.1 the partial state is empty, the fallback to the event's own auth events adds the event itself
 			// instead of the auth event, the auth check fails for want of a create event and both candidates are dropped
-			vpAssertKF("v2-topic-winner", got[fb.EventID()] == bWins && got[fa.EventID()] == !bWins, "KF-C10-1", vpIsV12(ver))
+			// (fixed: KF-C10-1 - under v2.1 the auth fallback supplied the event itself, so both candidates were dropped)
+			vpAssert("v2-topic-winner", got[fb.EventID()] == bWins && got[fa.EventID()] == !bWins)
 		} else {
 			// the ban is a power event and is applied first; Bob's topic then fails the auth check
 			vpAssert("v2-ban-applied", got[fa.EventID()])
